@@ -375,7 +375,6 @@ func (c *Checker) checkReadPATStep(fn *ssa.Function) {
 	}{
 		{"the stream ends on a packet boundary", []Bit{bnot(erNil), erEOF, bnot(erUEOF)}, func(v Val) bool { return showVal(v) == "gots.ErrPATNotFound" }, "the PAT-not-found error"},
 		{"the stream ends inside a packet", []Bit{bnot(erNil), bnot(erEOF), erUEOF}, func(v Val) bool { return showVal(v) == "gots.ErrPATNotFound" }, "the PAT-not-found error"},
-		{"the reader fails otherwise", []Bit{bnot(erNil), bnot(erEOF), bnot(erUEOF)}, func(v Val) bool { return sameVal(v, er) }, "the reader's error"},
 	} {
 		fs := newFactSet(nil)
 		for _, f := range cs.facts {
